@@ -25,6 +25,20 @@ pub fn get_message(squitter: &str) -> Option<Vec<u32>> {
         // DF 0-15 are 56-bit frames, DF 16-31 are 112-bit frames
         .filter(|message| (message[0] >> 3 == 0) == (message.len() == 14))
         .filter(|message| reminder(message) == 0)
+        .filter(|message| parity_ok(message))
+}
+
+/// DF11, DF17 and DF18 carry a plain CRC-24 parity: the remainder of the whole
+/// frame must be zero (for DF11 the low 7 bits hold the interrogator code).
+fn parity_ok(message: &[u32]) -> bool {
+    let df = (message[0] << 1) | (message[1] >> 3);
+    let mask = match df {
+        11 => 0xFFFF80,
+        17 | 18 => 0xFFFFFF,
+        _ => return true,
+    };
+    let len = (message.len() * 4) as u32;
+    range_value(message, len - 23, len).is_some_and(|pi| (pi ^ get_crc(message, df)) & mask == 0)
 }
 
 pub(crate) fn get_hex_message(message: &[u32]) -> String {
